@@ -435,6 +435,8 @@ Proof.
     + cbn [tc_ems alloc_tl ems with_tlists]. unfold new_cids. apply Forall_forall. intros y Hy.
       apply in_seq in Hy. rewrite (L eq_refl). lia.
     + cbn [tc_tl]. rewrite <- T6. apply tlists_alloc_tl.
+  - (* extend_self *) unfold exec_extend_self. destruct (nth_error (ems h) c) as [e|] eqn:Ee; simpl; auto.
+    apply wf_extend_locs; auto. eapply wf_em; eauto.
 Qed.
 
 Theorem wf_run os : forall h, wf h -> wf (run h os).
@@ -645,4 +647,6 @@ Proof.
     rewrite E.
     destruct (clone_ems_inv h es W (wf_mapM_ems _ _ _ W E)) as (_ & N & _).
     destruct (clone_ems h es) as [h1 [|x]]; simpl in *; [discriminate|exact N].
+  - unfold exec_extend_self. destruct (nth_error (ems h) c) as [e|] eqn:Ee; [|discriminate].
+    apply extend_no_dangling; auto. eapply wf_em; eauto.
 Qed.
